@@ -260,6 +260,7 @@ pub fn run_plans(rep: &mut Report, plans: Vec<Plan>) {
                 "observations": st.observations,
                 "capped": st.capped,
                 "shared_set_grew_during_search": grew[pi],
+                "replays_discarded_because_the_candidate_set_had_grown": st.diverged_after_growth,
             }));
         }
         if st.capped {
